@@ -475,3 +475,45 @@ B('pB2_encoder_flag_read_under_another_key', ['C08'], 'R08.e',
 B('pB2_encoder_hook_delegates_to_stock', ['C08'], 'R08.e',
   (RS, _DFLT_HOOK, "        if self.dev_mode and not isinstance(obj, type):\n            return repr(obj)\n"
                    "        return super(ClasticJSONEncoder, self).default(obj)\n"))
+
+# ---------------------------------------------------------------------------------------------- second pass: the slash decision as a tagged outcome
+# (an extracted helper returning ``(outcome, payload)`` pairs, as the loader inlines it: tag and payload are locals set side by side,
+# consumed by ``if outcome == TAG`` further down)
+_TAGS_ANCHOR = "def cast_to_route_factory(in_arg):\n"
+_TAGS = "_SLASHES_OK = 'ok'\n_SLASHES_REDIRECT = 'redirect'\n_SLASHES_NOT_FOUND = 'not_found'\n\n\n" + _TAGS_ANCHOR
+_CONSUME = ("            if slash_outcome == _SLASHES_REDIRECT:\n"
+            "                return slash_result\n"
+            "            if slash_outcome == _SLASHES_NOT_FOUND:\n"
+            "                dispatch_state.add_exception(slash_result)\n"
+            "                continue\n")
+
+
+def _tagged(consume=_CONSUME, redirect_tag='_SLASHES_REDIRECT', strict_tag='_SLASHES_NOT_FOUND', canonical_tag='_SLASHES_OK'):
+    return ("            slash_outcome, slash_result = _SLASHES_OK, None\n"
+            "            if route.is_branch:\n"
+            "                norm_path = normalize_path(url_path, route.is_branch)\n"
+            "                if norm_path != url_path:\n"
+            "                    if route.slash_mode == S_REDIRECT:\n" + _IND4(_QUERY) +
+            "                        slash_outcome = " + redirect_tag + "\n"
+            "                        slash_result = redirect(request.url_root.rstrip('/') + url_quote(norm_path) + '?' + query)\n"
+            "                    elif route.slash_mode == S_STRICT:\n"
+            "                        slash_outcome = " + strict_tag + "\n"
+            "                        slash_result = err_handler.not_found_type(request=request, application=self, source_route=route)\n"
+            "                else:\n"
+            "                    slash_outcome = " + canonical_tag + "\n" + consume)
+
+
+T('pB2_twin_slash_outcome_tags', ['C06', 'C07', 'C08'], (A, _TAGS_ANCHOR, _TAGS), (A, _SLASH, _tagged()))
+B('pB2_tagged_redirect_never_returned', ['C07'], 'R07.a', (A, _TAGS_ANCHOR, _TAGS),
+  (A, _SLASH, _tagged(consume="            if slash_outcome == _SLASHES_NOT_FOUND:\n                dispatch_state.add_exception(slash_result)\n                continue\n")))
+B('pB2_tagged_strict_outcome_ignored', ['C07'], 'R07.a', (A, _TAGS_ANCHOR, _TAGS),
+  (A, _SLASH, _tagged(consume="            if slash_outcome == _SLASHES_REDIRECT:\n                return slash_result\n")))
+B('pB2_tagged_consumers_swapped', ['C07', 'C08'], {'C07': 'R07.a', 'C08': 'R08.a'}, (A, _TAGS_ANCHOR, _TAGS),
+  (A, _SLASH, _tagged(consume=_CONSUME.replace('_SLASHES_REDIRECT', '_X_').replace('_SLASHES_NOT_FOUND', '_SLASHES_REDIRECT').replace('_X_', '_SLASHES_NOT_FOUND'))))
+B('pB2_tagged_strict_marked_ok', ['C07'], 'R07.a', (A, _TAGS_ANCHOR, _TAGS), (A, _SLASH, _tagged(strict_tag='_SLASHES_OK')))
+B('pB2_tagged_redirect_marked_not_found', ['C07'], 'R07.a', (A, _TAGS_ANCHOR, _TAGS), (A, _SLASH, _tagged(redirect_tag='_SLASHES_NOT_FOUND')))
+B('pB2_tagged_tags_collide', ['C07'], 'R07.a',
+  (A, _TAGS_ANCHOR, _TAGS.replace("_SLASHES_NOT_FOUND = 'not_found'", "_SLASHES_NOT_FOUND = 'redirect'")), (A, _SLASH, _tagged()))
+B('pB2_tagged_redirect_returned_late', ['C07'], 'R07.a', (A, _TAGS_ANCHOR, _TAGS),
+  (A, _SLASH, _tagged(consume="            if slash_outcome == _SLASHES_NOT_FOUND:\n                dispatch_state.add_exception(slash_result)\n                continue\n"
+                              "            if slash_outcome == _SLASHES_REDIRECT and route.methods:\n                return slash_result\n")))
